@@ -207,6 +207,52 @@ def job_neighbours(ctx, mode, fmt, reps, iv, ranges=None, nominal=False, rep=Non
                    bounds={"interval": iv, "repetitions": reps}, sample_every=100)
 
 
+def job_first_after_nominal(ctx, mode, iv, reps=None, ranges=None, k=6):
+    """get_first_after with a month/year interval: the earliest member (taken
+    from the real iterator) strictly later than the probe"""
+    data = ctx.data
+    C.set_mode(data, mode)
+    install_range_summary(data, mode)
+    kw = NOMINAL[iv]
+
+    def make(e):
+        return {"a": anchor_input(e, data, "", "cal"), "dd": e.var("dd", -2, 2), "hh": e.var("hh", -1, 1),
+                "mm": e.var("mm", -1, 5 if iv == "P1M" else 1), "yy": e.var("yy", 0, 0 if iv == "P1M" else 3)}
+
+    def pre(i):
+        return C.m_valid_point(mode, i["a"], "cal", False)
+
+    def body(i):
+        a = i["a"]
+        d = data.Duration(**kw)
+        r = build(data, 3, reps, a, d)
+        probe = (a + data.Duration(years=i["yy"], months=i["mm"])) + data.Duration(days=i["dd"], hours=i["hh"])
+        return take(r, k), probe, r.get_first_after(probe)
+
+    def post(i, out):
+        if out[0] != "ok":
+            return [("no exception", False)]
+        pts, probe, res = out[1]
+        ip = L(C.m_instant(mode, probe, "cal"))
+        ms = [L(C.m_instant(mode, x, "cal")) for x in pts]
+        if res is None:
+            if reps is None:
+                return [("an unbounded series always has a later member", False)]
+            return [("None only when no member is later than p", z3.And([m <= ip for m in ms]))]
+        ir = L(C.m_instant(mode, res, C.rep_of(res)))
+        inwin = ip < ms[-1] if reps is None else z3.BoolVal(True)     # the probe lies before the last sampled member
+        return [("result is the earliest member strictly later than p",
+                 z3.Implies(inwin, z3.And(z3.Or([ir == m for m in ms]), ir > ip, z3.And([z3.Or(m <= ip, m >= ir) for m in ms]))))]
+
+    def case_of(v, i):
+        return {"check": "first_after_nominal", "mode": mode, "iv": iv, "reps": reps, "a": C.point_case(v, "", "cal"),
+                "dd": v["dd"], "hh": v["hh"], "mm": v["mm"], "yy": v["yy"], "k": k}
+
+    return sym_run("first_after_nominal[%s,%s,R%s,%s]" % (mode, iv, reps, ranges), make, pre, body, post, case_of, ranges=ranges,
+                   scenarios=lambda i: {"first_after nominal": True, "probe before the nominal series": conc(i["dd"]) < 0},
+                   bounds={"interval": iv, "repetitions": reps, "probe": "anchor + (-1..5 months | 0..3 years -1..1 months) + (-2..2 days, -1..1 h)"}, sample_every=100)
+
+
 # ---------------------------------------------------------------------------
 def replay(case, M):
     data = M.data
@@ -214,6 +260,17 @@ def replay(case, M):
     data.CALENDAR.set_mode(mode)
     try:
         what = case["check"]
+        if what == "first_after_nominal":
+            d = data.Duration(**NOMINAL[case["iv"]])
+            a = C.build_point(data, case["a"])
+            r = build(data, 3, case["reps"], a, d)
+            probe = (a + data.Duration(years=case.get("yy", 0), months=case["mm"])) + data.Duration(days=case["dd"], hours=case["hh"])
+            got = r.get_first_after(probe)
+            ip = C.py_instant(mode, probe)
+            later = [x for x in take(r, 400 if case["reps"] is None else case["reps"]) if C.py_instant(mode, x) > ip]
+            exp = later[0] if later else None
+            bad = (got is None) != (exp is None) or (got is not None and C.py_instant(mode, got) != C.py_instant(mode, exp))
+            return bad, "%s .get_first_after(%s) = %s, the earliest later member is %s" % (r, probe, got, exp)
         nominal = case.get("nominal", False)
         kw = (NOMINAL if nominal else INTERVALS)[case["iv"]]
         d = data.Duration(**kw)
@@ -304,6 +361,11 @@ def jobs(tier):
                 for res in (104, 399, 4):
                     J.append(("job_neighbours", dict(mode=mode, fmt=fmt, reps=None, iv=iv, nominal=True, k=7, rep="week",
                                                      ranges={"W": (52, 53)}, pins=C.residue_pins(res))))
+    for mode in C.MODES4:
+        for iv in NOMINAL:
+            for reps in (None, 3):
+                for m, dw in (((1, 3), (28, 31)), ((1, 3), (1, 2)), ((10, 12), (29, 31))) if mode == "gregorian" or th else (((1, 2), (28, 31)),):
+                    J.append(("job_first_after_nominal", dict(mode=mode, iv=iv, reps=reps, ranges={"M": m, "D": dw, "tzh": (0, 0), "tzm": (0, 0)})))
     return J
 
 
@@ -321,10 +383,10 @@ INFO = {
                          "probes": "same year and zone as the anchor, day offset window around the series, any whole-second time; plus one job each with the probe in another whole-hour zone, in calendar and in week representation",
                          "repetitions": "start/duration 1,2,3,unbounded; start/second 3; duration/end 3 and unbounded", "mode": "gregorian"},
                "thorough": {"modes": "all 4", "anchors": "both windows for every interval"}},
-    "outside": ["symbolic interval lengths", "get_first_after with month/year intervals", "fractional-second probes",
+    "outside": ["symbolic interval lengths", "get_first_after with month/year intervals other than P1M / P1Y or probes more than 5 months (P1M) / 3 years (P1Y) after the anchor", "fractional-second probes",
                 "probes more than the stated window away from the series"],
     "assumptions": ["get_days_in_year_range runs as its closed form (C03)"],
 }
-REQUIRED_SCENARIOS = {"all": ["query:valid", "query:first_after", "probe before the series", "probe on a member",
+REQUIRED_SCENARIOS = {"all": ["first_after nominal", "probe before the nominal series", "query:valid", "query:first_after", "probe before the series", "probe on a member",
                               "probe between members", "probe on the last member", "probe after the series",
                               "neighbours", "neighbours nominal"]}
